@@ -32,16 +32,22 @@ pub broadcast axiom fn ax_b64_round_trip(b: Seq<u8>)
 // compare a token's length call them through this stand-in trait instead: W1 `.len()` -> `.blen()`,
 // `.as_bytes()` -> `.bbytes()` in serialize_page_token / deserialize_page_token only.)
 pub trait ByteLen {
-    spec fn chars(&self) -> Seq<char>;
-    fn blen(&self) -> (r: usize) ensures r as nat == utf8_len(self.chars());
+    spec fn byte_len(&self) -> nat;
+    fn blen(&self) -> (r: usize) ensures r as nat == self.byte_len();
 }
 impl ByteLen for str {
-    open spec fn chars(&self) -> Seq<char> { self@ }
+    open spec fn byte_len(&self) -> nat { utf8_len(self@) }
     #[verifier::external_body]
     fn blen(&self) -> (r: usize) { self.len() }
 }
 impl ByteLen for String {
-    open spec fn chars(&self) -> Seq<char> { self@ }
+    open spec fn byte_len(&self) -> nat { utf8_len(self@) }
+    #[verifier::external_body]
+    fn blen(&self) -> (r: usize) { self.len() }
+}
+/// (so that a length test moved onto the decoded bytes is decided, not refused)
+impl ByteLen for Vec<u8> {
+    open spec fn byte_len(&self) -> nat { self@.len() }
     #[verifier::external_body]
     fn blen(&self) -> (r: usize) { self.len() }
 }
@@ -60,6 +66,11 @@ pub fn from_slice<T>(b: &[u8]) -> (r: Result<T, SerdeErr>)
     ensures (r is Ok) == (json_parse::<T>(b@) is Some), r is Ok ==> r->Ok_0 == json_parse::<T>(b@)->Some_0 { unimplemented!() }
 #[verifier::external_body]
 pub fn url_safe_encode(b: Vec<u8>) -> (r: String) ensures r@ == b64(b@) { unimplemented!() }
+/// STANDARD.encode: the other base64 alphabet ('+', '/'): a different function of the bytes, about which nothing is
+/// assumed -- in particular not that URL_SAFE.decode undoes it
+pub uninterp spec fn b64_std(b: Seq<u8>) -> Seq<char>;
+#[verifier::external_body]
+pub fn standard_encode(b: Vec<u8>) -> (r: String) ensures r@ == b64_std(b@) { unimplemented!() }
 #[verifier::external_body]
 pub fn url_safe_decode(s: &[u8]) -> (r: Result<Vec<u8>, B64Err>)
     ensures (r is Ok) == (b64_dec(s@) is Some), r is Ok ==> r->Ok_0@ == b64_dec(s@)->Some_0 { unimplemented!() }
@@ -105,3 +116,7 @@ impl PartialEqSpecImpl for PaginationVersion {
     open spec fn obeys_eq_spec() -> bool { true }
     open spec fn eq_spec(&self, other: &Self) -> bool { *self == *other }
 }
+
+/// Result::unwrap_or (no vstd contract)
+pub assume_specification<T, E>[ Result::<T, E>::unwrap_or ](r: Result<T, E>, default: T) -> (v: T)
+    ensures v == (match r { Ok(x) => x, Err(_) => default });
